@@ -197,6 +197,12 @@ fn post_init<T: Transport>(d: &mut AnyDriver<T>, accepted: u64, v: &mut Vec<(Str
                 _ => {}
             }
             let _ = g.resolution();
+            // Every public entry point that leads to a GET_EDID request is gated by the feature.
+            let r2 = g.edid_preferred_resolution();
+            let r3 = g.edid_supported_resolutions();
+            if !want && (!matches!(r2, Err(Error::Unsupported)) || !matches!(r3, Err(Error::Unsupported))) {
+                push(v, "gpu-edid-gating", format!("edid_preferred_resolution = {:?}, edid_supported_resolutions = {:?} although EDID was not negotiated (expected Unsupported)", r2, r3.map(|x| x.len())));
+            }
             // Control queue (several commands) and cursor queue.
             let _ = g.setup_framebuffer().map(|fb| fb.len());
             let _ = g.flush();
